@@ -334,6 +334,27 @@ def check_dominance(P, R, tu, dtu):
             R.ob(rule, "dt_dfixup: %s -> %s" % (en, callee), True)
         else:
             R.finding(rule, fx, "dispatch %s" % en, "dt_dfixup does not hand %s dates to %s: they are printed unclamped" % (en, callee))
+    # dt_fixup (the range test of dseq clamps through it): the date part is clamped for every kind of value that has one
+    from core import SANDWICH_KINDS, sandwich_pred_value, guards_of
+    fxu = dtu.func("dt_fixup")
+    if fxu is None:
+        raise AnalysisBroken("dt_fixup vanished")
+    R.saw(fxu)
+    fcs = [c for c in fxu.calls("dt_dfixup")]
+    if not fcs:
+        R.finding(rule, fxu, "dt_fixup", "dt_fixup no longer clamps the date part")
+    else:
+        gs = [g for g in guards_of(fxu, fcs[0]) if "pol" in g]
+        for kind in ("date only", "date and time"):
+            vs = [sandwich_pred_value(dtu, g["cond"], SANDWICH_KINDS[kind]) for g in gs]
+            if any(v is None for v in vs):
+                raise AnalysisBroken("%s: guard of the clamp in dt_fixup not decodable" % rule)
+            if all((v if g["pol"] else not v) for v, g in zip(vs, gs)):
+                R.ob(rule, "dt_fixup clamps %s values" % kind, True)
+            else:
+                R.finding(rule, fxu, "dt_fixup %s" % kind, "dt_fixup does not clamp the date part of %s values: an iterate like "
+                          "2000-04-31T10:00:00 is compared unclamped with the bounds and a sequence by months stops one element early" % kind,
+                          fcs[0])
     # dt_dconv: the fixup dominates every converter call
     cv = tu.func("dt_dconv")
     R.saw(cv)
@@ -427,6 +448,9 @@ def check(P, R, tier):
     check_effects(P, R, tu)
     check_clamps(P, R, tu)
     check_dominance(P, R, tu, dtu)
+    # the clamp targets take the year's leapness from the one place that is checked (C01 RF2-leap)
+    import c01
+    c01.check_leap_source(P, R, tu)
 
 
 LEVEL = ("Decides month / year addition structurally for all dates and counts: 12*year + month moves by exactly n (linear loop "
